@@ -8,7 +8,7 @@ LEAN_MODULES = ["ViaProofs.C02"]
 LEMMA_MODULES = ['ViaProofs.Frag.Lines', 'ViaProofs.Frag.Headers', 'ViaProofs.Frag.Compose', 'ViaProofs.C01', 'ViaProofs.C05', 'ViaProofs.Trans.RL', 'ViaProofs.Trans.FL', 'ViaProofs.Trans.CH', 'ViaProofs.Trans.MH', 'ViaProofs.Trans.CK', 'ViaProofs.Trans.RQ', 'ViaProofs.Trans.RR', 'ViaProofs.Trans.MHA', 'ViaProofs.Trans.RQP']
 REQUIRED_THEOREMS = ['Via.C02_method_at_limit', 'Via.C02_method_beyond', 'Via.C02_uri_at_limit', 'Via.C02_uri_beyond', 'Via.C02_ws_before_target', 'Via.C02_content_length_invalid', 'Via.C02_content_length_too_large', 'Via.C02_content_length_at_limit', 'Via.C02_trace_with_body', 'Via.C02_trace_proposes_405', 'Via.C02_missing_host']
 LEVEL = "proof"
-LEVEL_TEXT = ("PROOF of the accept/reject decision at every limit value and of partition independence (via C01's fragmentation laws) on the model; translated parsers as C01; differential correspondence + by-construction verdicts for one-violation mutants (incl. as second message on a receiver, all chunk splits at the content limit). The 411 class is read-dependent by nature and checked only where a body byte shares the read with the end of the head.")
+LEVEL_TEXT = ("PROOF of the accept/reject decision at every limit value and of partition independence (via C01's fragmentation laws) on the model; translated parsers and request_receiver::receive (status selection 400 / 405 / 411 / 413 / 414 / 501) as C01; differential correspondence + by-construction verdicts for one-violation mutants (incl. as second message on a receiver, all chunk splits at the content limit). The 411 class is read-dependent by nature and checked only where a body byte shares the read with the end of the head.")
 RULE = ("requests obtained from a well-formed one by ONE violating change of a known class (method/target length, version "
         "token, whitespace run, header-name byte, line/count/total limits, missing Host, Content-Length syntax/size, chunk "
         "size syntax/size, chunk terminator, bare LF under strict, TRACE with body) with the expected status attached by "
